@@ -52,6 +52,8 @@ def key_fn(ev, clause):
     stale = any(p['cache'] and (json.dumps(p['sel']), json.dumps(p['ign']), p['phased']) != cfg for p in h['runs'][:ri])
     contig = 'absent_contig' if o['c'] in ev['absent'] else 'known_contig'
     ans = ('ans_true' if o['ans'] else 'ans_false') if o['op'] == 'has' else ('ans_some' if o['ans'] else 'ans_none')
+    if o['op'] == 'read':
+        ans = 'getAllele_' + ans
     return '|'.join([base, mode] + ([] if r['phased'] else ['unphased']) + [o['op'], contig, ans] + (['after_other_config_used_the_cache'] if stale and r['cache'] else []))
 
 
@@ -63,7 +65,7 @@ def what_fn(ev, clause):
     ri = h['runs'].index(r)
     return '%s: run %d of a %s history, flags lazyLoad=%s use_cache=%s phased=%s select=%s ignore=%s: %s(%s,%d%s) returned %s; VCF site: %s; earlier runs: %s' % (
         clause, ri + 1, h['kind'], r['lazy'], r['cache'], r['phased'], r['sel']['s'] if r['sel']['explicit'] else None, r['ign'] or None,
-        'getAllelesAt' if o['op'] == 'get' else 'has_location', o['c'], o['p'], (',' + o['b']) if o['op'] == 'get' else '',
+        {'get': 'getAllelesAt', 'has': 'has_location', 'read': 'getAllele(read ' + ''.join(o.get('seq', [])) + ')'}[o['op']], o['c'], o['p'], (',' + o['b']) if o['op'] == 'get' else '',
         o['ans'], json.dumps(site[0]) if site else 'none (contigs in VCF: %s)' % ev['contigs'],
         [[MODE[(p['lazy'], p['cache'])], p['ign'], p['phased']] for p in h['runs'][:ri]])
 
@@ -81,15 +83,16 @@ def run(tier):
         c.mc_pass('Alleles', 'MC_Alleles_design_t.cfg', workers=12, timeout=1500)
         c.mc_pass('Alleles', 'MC_Alleles_design_t2.cfg', workers=12, timeout=1500)
         c.mc_pass('Alleles', 'MC_Alleles_design_t3.cfg', workers=8, timeout=1500)
-        c.mc_pass('Alleles', 'MC_Alleles_phase_q.cfg', workers=8, timeout=900)
+        c.mc_pass('Alleles', 'MC_Alleles_phase_t.cfg', workers=8, timeout=900)
         c.mc_pass('Alleles', 'MC_Alleles_rules_t.cfg', workers=8, timeout=1500,
                   actions_required=['StartRun', 'Query', 'FetchVCF', 'FetchAbsent', 'Answer'])
     c.mc_negative('Alleles', 'MC_Alleles_impl_lazyflag_q.cfg', expect_inv='Inv_C18_Truth', workers=4)
     c.mc_negative('Alleles', 'MC_Alleles_impl_hasloc_q.cfg', expect_inv='Inv_C18_Truth', workers=4)
-    c.mc_negative('Alleles', 'MC_Alleles_mut_ign_listed_q.cfg', expect_inv='Inv_C18_Truth', workers=4)
-    c.mc_negative('Alleles', 'MC_Alleles_mut_record_snv_q.cfg', expect_inv='Inv_C18_Truth', workers=4)
-    c.mc_negative('Alleles', 'MC_Alleles_mut_unphased_alts_q.cfg', expect_inv='Inv_C18_Truth', workers=4)
-    c.mc_negative('Alleles', 'MC_Alleles_impl_cachekey_q.cfg', expect_inv='Inv_C18_CacheSound', workers=4)
+    if tier != 'quick':     # mutation controls and the D-level cache-key control: thorough tier only (quick budget)
+        c.mc_negative('Alleles', 'MC_Alleles_mut_ign_listed_q.cfg', expect_inv='Inv_C18_Truth', workers=4)
+        c.mc_negative('Alleles', 'MC_Alleles_mut_record_snv_q.cfg', expect_inv='Inv_C18_Truth', workers=4)
+        c.mc_negative('Alleles', 'MC_Alleles_mut_unphased_alts_q.cfg', expect_inv='Inv_C18_Truth', workers=4)
+        c.mc_negative('Alleles', 'MC_Alleles_impl_cachekey_q.cfg', expect_inv='Inv_C18_CacheSound', workers=4)
     c.mc_negative('Alleles', 'MC_Alleles_impl_cachekey_truth_q.cfg', expect_inv=['Inv_C18_Truth', 'Inv_C18_ModeEq'], workers=4)
 
     # spec -> code: random behaviours of the design (complete histories with the design's answers) for replay
@@ -216,8 +219,8 @@ def replay(path):
             '    runs=[]\n'
             '    for r in h["runs"]:\n'
             '        rr={"lazy":r["lazy"],"cache":r["cache"],"phased":r["phased"],"sel":r["sel"]["s"] if r["sel"]["explicit"] else None,\n'
-            '            "ign":r["ign"] or None,"ops":[{k:o[k] for k in ("op","c","p","b")} for o in r["ops"]]}\n'
-            '        runs.append(d.execute_run(AlleleResolver, link, rr))\n'
+            '            "ign":r["ign"] or None,"ops":[{k:o[k] for k in ("op","c","p","b","seq") if k in o} for o in r["ops"]]}\n'
+            '        runs.append(d.execute_run(AlleleResolver, link, rr, ev["contigs"]+ev["absent"]))\n'
             '    h["runs"]=runs\n'
             'open(sys.argv[2],"w").write(json.dumps(ev)+"\\n"); shutil.rmtree(work)\n')
     sp = os.path.join(vlib.scratch(), 'rp_c18.py')
